@@ -450,7 +450,7 @@ func checkLimits(p *Program, r *Result) {
 		r.Check(okLead, rd.String(), "limit:leading", "", "blank lines are skipped only while the running total is <= maxWhitespace", "the leading-whitespace loop continues without the bound: unbounded blank input would be read forever")
 		// trailing: ReadAll of a LimitReader
 		okTrail := false
-		for _, a := range AnonFuncs(rd) {
+		for _, a := range append([]*ssa.Function{rd}, AnonFuncs(rd)...) {
 			atb := p.TB(a)
 			for _, c := range callsTo(a, "io.ReadAll") {
 				t := short(atb.Term(c.Common().Args[0]).String())
